@@ -96,6 +96,25 @@ class Run:
         return out
 
 
+def colsort_decides(run: "Run") -> list:
+    """the column-wise sorts of a diagram (np.sort(<2-d>, axis=0)) whose result reaches what is returned: a returned value, or
+    the condition under which some value is returned.  A column-wise sort made for something else (a bounding box in a log
+    line) decides nothing and is not listed."""
+    evs = list(run.events("sort-columns"))
+    if not evs:
+        return []
+
+    def tainted(e):
+        return e is not None and any(x[0] == "opq" and x[1] == "colsorted" for x in sym.walk(e))
+    for ev, e in run.distance_values():
+        if tainted(e) or any(tainted(c) for c in ev.get("path", ())):
+            return evs
+        r = ev.get("reach")
+        if tainted(r.e if isinstance(r, Sc) else r if isinstance(r, tuple) else None):
+            return evs
+    return []
+
+
 def unmodelled_in(e: sym.Expr) -> List[str]:
     return sorted({x[1] for x in sym.walk(e) if x[0] == "opq" and x[1].startswith("unmodelled")})
 
